@@ -275,6 +275,15 @@ impl LightClientProtocol {
 
     fn check_verifiable_header(&self, verifiable_header: &VerifiableHeader) -> Result<(), Status> {
         let header = verifiable_header.header();
+        // Check Total Difficulty
+        if verifiable_header.is_total_difficulty_overflowed() {
+            let errmsg = format!(
+                "the total difficulty is overflow for block#{}, hash: {:#x}",
+                header.number(),
+                header.hash()
+            );
+            return Err(StatusCode::MalformedProtocolMessage.with_context(errmsg));
+        }
         // Check PoW
         if !self.consensus.pow_engine().verify(&header.data()) {
             let errmsg = format!(
